@@ -322,6 +322,60 @@ static int raw_stackcmp(int i, int j) {
   return cmp(raw_stack(ba, i), raw_stack(bb, j));
 }
 
+/* ---- recycled run-time types --------------------------------------------------------------
+**
+** A run-time record type (new_raw(Type, name, size), no instances at all) is created, used,
+** and deleted; the next one has another size and - the Type block has a fixed size, so malloc
+** normally hands the same block back - very often the SAME ADDRESS.  Anything the library
+** remembers per type pointer (sizes, instance lookups) must not survive into the new type.
+** Sizes cycle 8, 32, 16, 64, 4, 24, 12, 100 (growing and shrinking steps).
+** Values of a size: 0 base pattern; 1,2 first byte 00/FF; 3,4 middle byte; 5,6 LAST byte.
+** Objects live in caller blocks (header_init: no library lookup happens while they are
+** built) with a canary zone behind them, stack class or heap class.
+*/
+static const size_t vfr_sizes[] = { 8, 32, 16, 64, 4, 24, 12, 100 };
+#define VFR_NSIZES 8
+#define VFR_NVALS 7
+#define VFR_MAXSIZE 104
+#define VFR_CANARY 72
+#define VFR_BLOCK (sizeof(struct Header) + VFR_MAXSIZE + VFR_CANARY)
+static char vfr_names[VFR_NSIZES][16];
+
+static void vfr_value(size_t size, int v, unsigned char* out) {
+  for (size_t k = 0; k < size; k++) out[k] = raw_big_filler(k);
+  if (v == 0) return;
+  size_t pos = v <= 2 ? 0 : v <= 4 ? size / 2 : size - 1;
+  out[pos] = (v & 1) ? 0x00 : 0xFF;
+}
+static int vfr_ref(size_t size, int i, int j) {
+  unsigned char a[VFR_MAXSIZE], b[VFR_MAXSIZE];
+  vfr_value(size, i, a); vfr_value(size, j, b);
+  for (size_t k = 0; k < size; k++) if (a[k] != b[k]) return a[k] < b[k] ? -1 : 1;
+  return 0;
+}
+static var vfr_type_new(int gen) {
+  int q = gen % VFR_NSIZES;
+  snprintf(vfr_names[q], sizeof vfr_names[q], "Rec%zu", vfr_sizes[q]);
+  return new_raw(Type, $S(vfr_names[q]), $I((int64_t)vfr_sizes[q]));
+}
+/* an object of run-time type `type` holding value v in block `blk` (VFR_BLOCK bytes), canary byte c behind it */
+static var vfr_obj(char* blk, var type, int heap_class, size_t size, int v, unsigned char c) {
+  memset(blk, 0, VFR_BLOCK);
+  var x = header_init(blk, type, heap_class ? AllocHeap : AllocStack);
+  vfr_value(size, v, x);
+  memset((char*)x + size, c, VFR_CANARY);
+  return x;
+}
+static int vfr_holds(var x, size_t size, int v) {
+  unsigned char w[VFR_MAXSIZE]; vfr_value(size, v, w);
+  return memcmp(x, w, size) == 0;
+}
+static int vfr_canary_ok(var x, size_t size, unsigned char c) {
+  const unsigned char* p = (const unsigned char*)x + size;
+  for (int k = 0; k < VFR_CANARY; k++) if (p[k] != c) return 0;
+  return 1;
+}
+
 /* is domain `name` selected by the comma list `list`?  "all" = everything; aliases: rawall = every raw*
 ** domain, rawbig = the raw domains of 63 bytes and more */
 static int vfg_dom_selected(const char* list, const char* name) {
